@@ -16,7 +16,7 @@ RULE = (
   "to the world and below jointed bodies), 1-2 geoms per body + 0-2 world geoms, every geom a sphere (world: also a plane) that deeply overlaps every "
   "other geom so that geometry never filters; drawn 4-bit contype/conaffinity masks, 0-3 <exclude>s (incl. world), 0-3 explicit <pair>s (also on "
   "same-body, same-weld, parent-child, masked, excluded and static-static geoms) with their own condim/friction/solref/solreffriction/solimp/margin/gap, "
-  "filterparent flag on/off, nworld 1-2 (slightly different joint positions). Oracle per world = the set of unordered geom pairs in Data.contact after "
+  "0-3 distance/normal/fromto sensors on drawn geom or body pairs (they keep filtered pairs in the broadphase list), filterparent flag on/off, nworld 1-2 (slightly different joint positions). Oracle per world = the set of unordered geom pairs of the constraint contacts (ContactType.CONSTRAINT) in Data.contact after "
   "mjw.kinematics+mjw.collision must equal (a) the reference predicate written from the statement [explicit pair OR (mask test AND different weld "
   "bodies AND not both without degrees of freedom AND not weld-parent/weld-child (only with filterparent, never for the world weld) AND no <exclude> "
   "of the two bodies)] and (b) the pair set of mj_collision; each pair is reported once; contacts of explicit pairs carry pair_dim/friction/solref/"
@@ -71,7 +71,16 @@ def _case(draw, tier):
     b = draw(st.integers(0, ngeom - 1))
     if a != b and not any({a, b} == {p[0], p[1]} for p in pairs):
       pairs.append([a, b])
+  # collision sensors (distance / normal / fromto) between drawn geoms or bodies: they keep a pair in the broadphase list even when every rule filters it,
+  # and such a pair must still not become a constraint contact
+  dsens = []
+  for _ in range(draw(st.sampled_from([0, 0, 1, 2, 3]))):
+    a = draw(st.integers(0, ngeom - 1))
+    b = draw(st.integers(0, ngeom - 1))
+    if a != b:
+      dsens.append([draw(st.sampled_from(["distance", "normal", "fromto"])), a, b, draw(st.booleans())])
   return dict(
+    dsens=dsens,
     bodies=bodies,
     world=world,
     plane=plane,
@@ -189,6 +198,14 @@ def build_spec(case):
       p["margin"] = r.u(0, 0.05)
       p["gap"] = r.u(0, p["margin"])
     spec["pairs"].append(p)
+  for kind, a, b, by_body in case.get("dsens", []):
+    oa, ob = geom_owner[a], geom_owner[b]
+    if oa["plane"] or ob["plane"]:
+      continue  # (mj_geomDistance does not take planes)
+    if by_body and oa["body"] >= 0 and ob["body"] >= 0 and oa["body"] != ob["body"]:
+      spec["sensors"].append(dict(kind=kind, body1=bname(oa["body"]), body2=bname(ob["body"]), cutoff=1))
+    else:
+      spec["sensors"].append(dict(kind=kind, geom1=oa["name"], geom2=ob["name"], cutoff=1))
   spec["meshes"] = []
   spec["option"] = dict(flags=dict(filterparent="enable" if case["filterparent"] else "disable"))
   spec["nkey"] = 0
@@ -345,6 +362,12 @@ def check(case, rec):
     rec.ev()
     cm = H.mj_contacts(mjd)
     cw = H.contacts(d, w)
+    # constraint contacts only: pairs kept for a collision sensor are written with ContactType.SENSOR alone
+    keep = [i for i in range(len(cw["dist"])) if int(cw["type"][i]) & 1]
+    nsensor_only = len(cw["dist"]) - len(keep)
+    if nsensor_only:
+      rec.cls("sensor-only-contacts")
+    cw = {k: (np.asarray(v)[keep] if hasattr(v, "__len__") and len(v) == len(cw["dist"]) else v) for k, v in cw.items()}
     pm, pw = _pairset(cm["geom"]), _pairset(cw["geom"])
     ctx = dict(world=w, filterparent=case["filterparent"])
     for key in sorted(pred):
